@@ -39,12 +39,16 @@ import (
 	"math"
 	"os"
 	"path/filepath"
+	"runtime/debug"
+	"runtime/pprof"
 	"sort"
 	"strings"
 	"sync"
+	"syscall"
 	"testing"
 	"time"
 
+	"filippo.io/edwards25519"
 	"github.com/MixinNetwork/mixin/common"
 	"github.com/MixinNetwork/mixin/config"
 	"github.com/MixinNetwork/mixin/crypto"
@@ -293,8 +297,20 @@ func c31NewFixture(c *verifmc.Check, nS, nP, nH int) *c31Fixture {
 		panic(err)
 	}
 	f := &c31Fixture{M: m, Dir: dir, W: fixc.Addr("c31-wallet"), Chain: mcNet7.NodeIds[1], Ts: mcNet7.Epoch + uint64(time.Hour)}
+	// the 256 co-owners of the signature-heavy outputs: 256 spend keys under one
+	// shared view key, so that the one-time keys of an output are B_k + x*G with
+	// ONE x = H(r*A, index) per output (derived below with the real
+	// KeyMultPubPriv / HashScalar and checked against the real
+	// DeriveGhostPublicKey / DeriveGhostPrivateKey on samples)
+	view := fixc.Addr("c31-key-view")
+	spendPoints := make([]*edwards25519.Point, c31HKeys)
+	spendScalars := make([]*edwards25519.Scalar, c31HKeys)
 	for i := 0; i < c31HKeys; i++ {
-		f.KeyAddr = append(f.KeyAddr, fixc.Addr(fmt.Sprintf("c31-key-%03d", i)))
+		a := fixc.Addr(fmt.Sprintf("c31-key-%03d", i))
+		a.PrivateViewKey, a.PublicViewKey = view.PrivateViewKey, view.PublicViewKey
+		f.KeyAddr = append(f.KeyAddr, a)
+		spendPoints[i], _ = edwards25519.NewIdentityPoint().SetBytes(a.PublicSpendKey[:])
+		spendScalars[i], _ = edwards25519.NewScalar().SetCanonicalBytes(a.PrivateSpendKey[:])
 	}
 	w := c31Wallet()
 	store := m.Store
@@ -320,7 +336,10 @@ func c31NewFixture(c *verifmc.Check, nS, nP, nH int) *c31Fixture {
 		}
 	}
 	f.finalize(deps...)
-	stage := func(what string) { fmt.Printf("c31 fixture: %-22s at %.1fs\n", what, time.Since(t0).Seconds()) }
+	cpu0 := c31CPU()
+	stage := func(what string) {
+		fmt.Printf("c31 fixture: %-24s at wall %.1fs cpu %.1fs\n", what, time.Since(t0).Seconds(), c31CPU()-cpu0)
+	}
 	stage("deposits finalized")
 
 	// 2. fan-out transfers G: up to 240 outputs of 256 one-time keys, threshold 1
@@ -341,18 +360,38 @@ func c31NewFixture(c *verifmc.Check, nS, nP, nH int) *c31Fixture {
 	c.ParallelN(len(orefs), "c31 fan-out outputs", func(_, i int) {
 		r := crypto.NewKeyFromSeed(fixc.Seed64(fmt.Sprintf("c31-g-%d-%d", orefs[i].g, orefs[i].o)))
 		out := &common.Output{Type: common.OutputTypeScript, Amount: common.NewIntegerFromString("0.005"), Script: common.NewThresholdScript(1), Mask: r.Public()}
+		x := crypto.HashScalar(crypto.KeyMultPubPriv(&view.PublicViewKey, &r), uint64(orefs[i].o))
+		xG := edwards25519.NewIdentityPoint().ScalarBaseMult(x)
 		for k := range f.KeyAddr {
-			a := &f.KeyAddr[k]
-			out.Keys = append(out.Keys, crypto.DeriveGhostPublicKey(&r, &a.PublicViewKey, &a.PublicSpendKey, uint64(orefs[i].o)))
+			var key crypto.Key
+			copy(key[:], edwards25519.NewIdentityPoint().Add(spendPoints[k], xG).Bytes())
+			out.Keys = append(out.Keys, &key)
+		}
+		if i%97 == 0 { // the shortcut equals the real derivation
+			for _, k := range []int{0, c31HKeys - 1} {
+				a := &f.KeyAddr[k]
+				if *crypto.DeriveGhostPublicKey(&r, &a.PublicViewKey, &a.PublicSpendKey, uint64(orefs[i].o)) != *out.Keys[k] {
+					panic("c31: one-time key shortcut differs from DeriveGhostPublicKey")
+				}
+			}
 		}
 		gs[orefs[i].g].Outputs[orefs[i].o] = out
 	})
 	stage("fan-out outputs derived")
-	for g := range gs {
+	// the fan-outs are ordinary admissible transfers too: the first one goes
+	// through the real Validate (61 440 output keys are point-checked, 10 s of
+	// CPU), the equally shaped others only in the thorough tier
+	c.ParallelN(len(gs), "c31 fan-out validation", func(_, g int) {
 		gs[g] = fixc.SignAll(&gs[g].Transaction, store, [][]*common.Address{w})
+		if g > 0 && !c.Thorough() {
+			return
+		}
 		if err := gs[g].Validate(store, f.Ts, false); err != nil {
 			panic(fmt.Errorf("c31 fan-out validate: %w", err))
 		}
+	})
+	stage("fan-outs validated")
+	for g := range gs {
 		f.finalize(gs[g])
 	}
 	stage("fan-outs finalized")
@@ -392,6 +431,7 @@ func c31NewFixture(c *verifmc.Check, nS, nP, nH int) *c31Fixture {
 		ver.SignaturesMap = make([]map[uint16]*crypto.Signature, c31HInputs)
 		f.H[h] = &c31Tx{Class: c31H, Ver: ver}
 	}
+	c.ParallelN(nH, "c31 H payload hashes", func(_, h int) { f.H[h].Ver.PayloadHash() })
 	// every one of the 256 keys of every input signs (parallel over inputs)
 	c.ParallelN(nH*c31HInputs, "c31 H signatures", func(_, j int) {
 		h, i := j/c31HInputs, j%c31HInputs
@@ -400,9 +440,16 @@ func c31NewFixture(c *verifmc.Check, nS, nP, nH int) *c31Fixture {
 		idx := (h%3)*c31HInputs + i
 		mask := gs[h/3].Outputs[idx].Mask
 		sigs := make(map[uint16]*crypto.Signature, c31HKeys)
+		x := crypto.HashScalar(crypto.KeyMultPubPriv(&mask, &view.PrivateViewKey), uint64(idx))
 		for k := range f.KeyAddr {
-			a := &f.KeyAddr[k]
-			priv := crypto.DeriveGhostPrivateKey(&mask, &a.PrivateViewKey, &a.PrivateSpendKey, uint64(idx))
+			var priv crypto.Key
+			copy(priv[:], edwards25519.NewScalar().Add(x, spendScalars[k]).Bytes())
+			if j%97 == 0 && (k == 0 || k == c31HKeys-1) {
+				a := &f.KeyAddr[k]
+				if *crypto.DeriveGhostPrivateKey(&mask, &a.PrivateViewKey, &a.PrivateSpendKey, uint64(idx)) != priv {
+					panic("c31: one-time key shortcut differs from DeriveGhostPrivateKey")
+				}
+			}
 			sig := priv.Sign(msg)
 			sigs[uint16(k)] = &sig
 		}
@@ -417,22 +464,42 @@ func c31NewFixture(c *verifmc.Check, nS, nP, nH int) *c31Fixture {
 // the store's ghost-key lock) and records the two sizes.
 func (f *c31Fixture) measure(c *verifmc.Check) (unsigned, envelope [3]int, ok bool) {
 	ok = true
-	for cl, ms := range [][]*c31Tx{f.S, f.P, f.H} {
+	classes := [][]*c31Tx{f.S, f.P, f.H}
+	var all []*c31Tx
+	for cl, ms := range classes {
 		for i, m := range ms {
-			if err := m.Ver.Validate(f.M.Store, f.Now, false); err != nil {
-				c.Require(false, "class %s member %d does not pass the real Validate: %v", c31ClassName[cl], i, err)
-				return unsigned, envelope, false
-			}
-			m.U, m.E = m.Ver.ValidatedSize(), len(m.Ver.Marshal())
-			if i == 0 {
-				unsigned[cl], envelope[cl] = m.U, m.E
-			}
-			if m.U != unsigned[cl] || m.E != envelope[cl] {
-				c.Require(false, "class %s members differ in size: (%d,%d) vs (%d,%d)", c31ClassName[cl], m.U, m.E, unsigned[cl], envelope[cl])
-				ok = false
+			// member 0 of the heavy classes and every small member go through the
+			// real Validate here (sequential: it takes the store's ghost-key
+			// lock); the other heavy members (same shape, other inputs) are
+			// validated by the real batcher in the replayed traces, where an
+			// invalid member would drop out of the batch and show as a
+			// conformance mismatch
+			if i == 0 || cl == c31S {
+				if err := m.Ver.Validate(f.M.Store, f.Now, false); err != nil {
+					c.Require(false, "class %s member %d does not pass the real Validate: %v", c31ClassName[cl], i, err)
+					return unsigned, envelope, false
+				}
+				m.U = m.Ver.ValidatedSize()
 			}
 			if !m.Ver.IsSnapshotBatchable() || f.M.Node.electSnapshotNode(m.Ver.TransactionType(), f.Now).HasValue() {
 				c.Require(false, "class %s member is not an ordinary batchable transaction", c31ClassName[cl])
+				ok = false
+			}
+			all = append(all, m)
+		}
+	}
+	c.ParallelN(len(all), "c31 member sizes", func(_, i int) {
+		m := all[i]
+		if m.U == 0 {
+			m.U = len(m.Ver.PayloadMarshal()) // = what Validate records as validated size
+		}
+		m.E = len(m.Ver.Marshal())
+	})
+	for cl, ms := range classes {
+		unsigned[cl], envelope[cl] = ms[0].U, ms[0].E
+		for _, m := range ms {
+			if m.U != unsigned[cl] || m.E != envelope[cl] {
+				c.Require(false, "class %s members differ in size: (%d,%d) vs (%d,%d)", c31ClassName[cl], m.U, m.E, unsigned[cl], envelope[cl])
 				ok = false
 			}
 		}
@@ -576,6 +643,15 @@ func c31SameActions(a, b [][]crypto.Hash) bool {
 func c31Describe(q []c31Run) string {
 	var s []string
 	for _, r := range q {
+		if r.N == 0 {
+			continue
+		}
+		if l := len(s); l > 0 && strings.HasPrefix(s[l-1], c31ClassName[r.Class]+"^") {
+			var n int
+			fmt.Sscanf(s[l-1][2:], "%d", &n)
+			s[l-1] = fmt.Sprintf("%s^%d", c31ClassName[r.Class], n+r.N)
+			continue
+		}
 		s = append(s, fmt.Sprintf("%s^%d", c31ClassName[r.Class], r.N))
 	}
 	if len(s) == 0 {
@@ -636,6 +712,29 @@ func c31RealSizes(f *c31Fixture, members []*c31Tx) (plain [4]int, relay [4]int, 
 
 // ---- the test -------------------------------------------------------------------------
 
+// c31CPU returns the process CPU seconds (user+system): the machine may be
+// shared, so stage costs are reported in CPU time next to wall time.
+func c31CPU() float64 {
+	var ru syscall.Rusage
+	if syscall.Getrusage(syscall.RUSAGE_SELF, &ru) != nil {
+		return 0
+	}
+	return float64(ru.Utime.Sec+ru.Stime.Sec) + float64(ru.Utime.Usec+ru.Stime.Usec)/1e6
+}
+
+type c31Stages struct {
+	t0   time.Time
+	cpu0 float64
+	rows []map[string]any
+}
+
+func (st *c31Stages) done(what string) {
+	now, cpu := time.Now(), c31CPU()
+	st.rows = append(st.rows, map[string]any{"stage": what, "wall_s": math.Round(now.Sub(st.t0).Seconds()*10) / 10, "cpu_s": math.Round((cpu-st.cpu0)*10) / 10})
+	fmt.Printf("c31 stage: %-28s wall %.1fs cpu %.1fs\n", what, now.Sub(st.t0).Seconds(), cpu-st.cpu0)
+	st.t0, st.cpu0 = now, cpu
+}
+
 type c31Finding struct {
 	Multiset [3]int
 	Batch    [3]int
@@ -662,9 +761,18 @@ func TestMC_C31(t *testing.T) {
 		"local proposal path: own chain made proposal-ready in-package (sync points of all peers at the own final round, other chains' cache rounds dated in the future), batches read from node.chain.CachePool; node.Peer is nil",
 		"the store is the real on-disk BadgerStore (NewBadgerStore options) in a scratch directory; funding deposits are custodian-signed and finalized through VerifFinalize")
 
+	if pf := os.Getenv("C31_PROFILE"); pf != "" {
+		fh, _ := os.Create(pf)
+		_ = pprof.StartCPUProfile(fh)
+		defer pprof.StopCPUProfile()
+	}
+	defer debug.SetGCPercent(debug.SetGCPercent(400)) // few, large, short-lived buffers (32 MiB messages)
+	st := &c31Stages{t0: time.Now(), cpu0: c31CPU()}
+	defer func() { c.Set("stages", st.rows) }()
 	nS, nP, nH := 250, 7, 10
 	f := c31NewFixture(c, nS, nP, nH)
 	defer f.Close()
+	st.done("fixture: three real classes")
 	tm := time.Now()
 	unsigned, envelope, ok := f.measure(c)
 	if !ok {
@@ -672,6 +780,7 @@ func TestMC_C31(t *testing.T) {
 	}
 	c.Set("build_s", f.BuildS)
 	c.Set("measure_s", time.Since(tm).Seconds())
+	st.done("measure (real Validate)")
 	fmt.Printf("c31: build %.1fs measure %.1fs unsigned=%v envelope=%v\n", f.BuildS, time.Since(tm).Seconds(), unsigned, envelope)
 	c.Set("class_sizes", map[string]any{"unsigned": unsigned, "envelope": envelope, "order": "S,P,H"})
 	for cl := range unsigned {
@@ -691,26 +800,34 @@ func TestMC_C31(t *testing.T) {
 	sizer := &c31Sizer{env: envelope, snapBase: snapBase}
 
 	// ---- conformance (i): the length formula against the real builders ----
-	formulaChecks := 0
-	verifmc.Sequences(3, 1, 3, func(seq []int) bool {
-		var b [3]int
+	var combos [][3]int
+	for n := 1; n <= 3; n++ {
+		for a := 0; a <= n; a++ {
+			for b := 0; a+b <= n; b++ {
+				combos = append(combos, [3]int{a, b, n - a - b})
+			}
+		}
+	}
+	formulaChecks := len(combos) * 8
+	c.ParallelN(len(combos), "formula vs real builders", func(_, i int) {
+		b := combos[i]
 		var members []*c31Tx
-		for _, cl := range seq {
-			members = append(members, f.member(cl, b[cl]))
-			b[cl]++
+		for cl := range b {
+			for j := 0; j < b[cl]; j++ {
+				members = append(members, f.member(cl, j))
+			}
 		}
 		want := sizer.sizes(b)
 		plain, relay, _ := c31RealSizes(f, members)
 		for k := range want {
-			formulaChecks++
 			if plain[k] != want[k] || relay[k] != want[k]+c31RelayHdr {
-				c.Violation("conformance:length-formula:"+c31Kinds[k], fmt.Sprintf("real %s of %v is %d bytes (relay %d), formula says %d (+%d)", c31Kinds[k], seq, plain[k], relay[k], want[k], c31RelayHdr), map[string]any{"sequence": seq})
+				c.Violation("conformance:length-formula:"+c31Kinds[k], fmt.Sprintf("real %s of %s is %d bytes (relay %d), formula says %d (+%d)", c31Kinds[k], c31Key(b), plain[k], relay[k], want[k], c31RelayHdr), map[string]any{"members": c31Key(b)})
 			}
 		}
 		c.AddTraces(1)
-		return true
 	})
 	c.Set("formula_checks", formulaChecks)
+	st.done("formula vs real builders")
 
 	// ---- conformance (ii) part 1: the probe decides the accounted size ----
 	if !f.proposeReady(c) {
@@ -719,16 +836,19 @@ func TestMC_C31(t *testing.T) {
 	candidates := map[string][3]int{"unsigned-payload": unsigned, "signed-envelope": envelope}
 	replayed := map[string]bool{}
 	replayH := 0
-	// replay runs one model trace on the real batcher; acct==nil means "do not compare"
 	type replayResult struct {
+		queue   []*c31Tx
 		actions [][]crypto.Hash
-		batch   []*c31Tx
+		ret     int
+		batch   []*c31Tx // members of the last appended snapshot
+		byHash  map[crypto.Hash]*c31Tx
 	}
-	var realOver []string
-	replay := func(q []c31Run, acct *[3]int, why string) *replayResult {
+	runs := map[string]*replayResult{}
+	// run executes one queue on the real batcher (once per distinct queue)
+	run := func(q []c31Run, why string) *replayResult {
 		name := c31Describe(q)
-		if replayed[name] && acct != nil {
-			return nil
+		if r, ok := runs[name]; ok {
+			return r
 		}
 		queue, ok := f.expand(q)
 		if !ok {
@@ -740,68 +860,77 @@ func TestMC_C31(t *testing.T) {
 				replayH += r.N
 			}
 		}
-		tr := time.Now()
+		tr, cpu := time.Now(), c31CPU()
 		actions, ret, p := f.runBatcher(queue)
-		fmt.Printf("c31 replay: %-28s %-18s -> %s in %.1fs\n", name, why, c31Shape(actions), time.Since(tr).Seconds())
+		fmt.Printf("c31 replay: %-28s %-18s -> %s wall %.1fs cpu %.1fs\n", name, why, c31Shape(actions), time.Since(tr).Seconds(), c31CPU()-cpu)
 		if p != nil {
 			c.Require(false, "trace %s: batcher run failed: %v", name, p)
 			return nil
 		}
-		res := &replayResult{actions: actions}
-		byHash := map[crypto.Hash]*c31Tx{}
+		res := &replayResult{queue: queue, actions: actions, ret: ret, byHash: map[crypto.Hash]*c31Tx{}}
 		for _, m := range queue {
-			byHash[m.Ver.PayloadHash()] = m
+			res.byHash[m.Ver.PayloadHash()] = m
 		}
-		// the real batch is the last action when it is the only one with several
-		// members or, by construction of sendTransactionsToNode, the last appended
 		if n := len(actions); n > 0 {
 			for _, h := range actions[n-1] {
-				res.batch = append(res.batch, byHash[h])
+				res.batch = append(res.batch, res.byHash[h])
 			}
 		}
-		if acct == nil {
-			return res
-		}
-		replayed[name] = true
-		c.AddTraces(1)
-		want, _ := c31Expect(queue, *acct)
-		c.Outcome("replay:" + why)
-		if ret != min(len(queue), c31Retrieve) {
-			c.Violation("conformance:retrieved-count", fmt.Sprintf("trace %s: popAndProcessCacheQueue returned %d for %d queued", name, ret, len(queue)), map[string]any{"trace": name})
-		}
-		if !c31SameActions(actions, want) {
-			c.Violation("conformance:batch-membership-differs-from-model", fmt.Sprintf("trace %s (%s): real batcher appended snapshots of sizes %s, the accounting mirror says %s", name, why, c31Shape(actions), c31Shape(want)), map[string]any{"trace": name, "real": c31Shape(actions), "model": c31Shape(want)})
-		}
-		// direct oracle on the REAL batch with the REAL builders
-		for _, a := range actions {
+		runs[name] = res
+		return res
+	}
+	var acct [3]int
+	var realOver []string
+	// realOracle sizes what the real batcher appended with the real builders
+	// (used when the accounting mirror does not describe the real batch)
+	realOracle := func(name string, res *replayResult) {
+		for _, a := range res.actions {
 			var ms []*c31Tx
-			heavy := 0
 			for _, h := range a {
-				ms = append(ms, byHash[h])
-				heavy += byHash[h].E
-			}
-			if heavy < c31Max/2 {
-				continue // far below the limit: not worth building 8 messages
+				ms = append(ms, res.byHash[h])
 			}
 			plain, relay, rp := c31RealSizes(f, ms)
 			for k := range plain {
 				if plain[k] > c31Max || relay[k] > c31Max || rp[k] {
 					realOver = append(realOver, fmt.Sprintf("%s:%s=%d", name, c31Kinds[k], plain[k]))
+					c.Violation(c31Kinds[k]+">max:real-batch-not-described-by-accounting-mirror", fmt.Sprintf("queue %s: the real popAndProcessCacheQueue formed a batch of %d members whose real %s is %d bytes (relay wrapping panics=%v) > %d", name, len(a), c31Kinds[k], plain[k], rp[k], c31Max), map[string]any{"trace": name, "batch_members": len(a)})
 				}
 			}
 		}
-		return res
+	}
+	// replay compares one model trace with the real batcher (once per distinct queue)
+	replay := func(q []c31Run, why string) {
+		name := c31Describe(q)
+		if replayed[name] {
+			return
+		}
+		res := run(q, why)
+		if res == nil {
+			return
+		}
+		replayed[name] = true
+		c.AddTraces(1)
+		want, _ := c31Expect(res.queue, acct)
+		c.Outcome("replay:" + why)
+		if res.ret != min(len(res.queue), c31Retrieve) {
+			c.Violation("conformance:retrieved-count", fmt.Sprintf("trace %s: popAndProcessCacheQueue returned %d for %d queued", name, res.ret, len(res.queue)), map[string]any{"trace": name})
+		}
+		if !c31SameActions(res.actions, want) {
+			// the mirror cannot speak for this batch: size the REAL batch with the REAL builders
+			c.Violation("conformance:batch-membership-differs-from-model", fmt.Sprintf("trace %s (%s): real batcher appended snapshots of sizes %s, the accounting mirror says %s", name, why, c31Shape(res.actions), c31Shape(want)), map[string]any{"trace": name, "real": c31Shape(res.actions), "model": c31Shape(want)})
+			realOracle(name, res)
+		}
 	}
 
 	probeQ := []c31Run{{c31H, nH}}
-	probe := replay(probeQ, nil, "probe")
+	probe := run(probeQ, "probe")
 	if probe == nil {
 		return
 	}
 	mode := ""
 	var modes []string
 	for name, a := range candidates {
-		want, _ := c31Expect(func() []*c31Tx { q, _ := f.expand(probeQ); return q }(), a)
+		want, _ := c31Expect(probe.queue, a)
 		if c31SameActions(probe.actions, want) {
 			modes = append(modes, name)
 		}
@@ -815,19 +944,21 @@ func TestMC_C31(t *testing.T) {
 		mode = modes[0]
 	case 0:
 		c.Violation("conformance:accounting-matches-no-model", fmt.Sprintf("probe trace %s: the real batcher appended snapshots of sizes %s; neither the unsigned-payload nor the signed-envelope accounting mirror (threshold two thirds of the maximum) forms that", c31Describe(probeQ), c31Shape(probe.actions)), map[string]any{"trace": c31Describe(probeQ), "real": c31Shape(probe.actions)})
-		mode = "unsigned-payload"
+		realOracle(c31Describe(probeQ), probe)
+		mode = "signed-envelope" // continue with the accounting under which the statement is meant to hold
 	default:
 		c.Require(false, "probe trace does not discriminate the accounting candidates")
 		return
 	}
-	acct := candidates[mode]
+	acct = candidates[mode]
 	c.Set("accounting_mode", mode)
+	st.done("probe trace on real batcher")
 	c.Outcome("accounting:" + mode)
 
 	// ---- the model: all multisets, all orders that matter ----
 	type worker struct {
 		states, cases, messages int64
-		minViol                 map[string]*c31Finding
+		minViol                 [4]*c31Finding // per builder: bundle, transaction challenge, full challenge, relay
 		maxSize                 int
 		maxQ                    []c31Run
 		maxBatch                [3]int
@@ -837,7 +968,7 @@ func TestMC_C31(t *testing.T) {
 	}
 	workers := make([]*worker, c.Workers()+1)
 	for i := range workers {
-		workers[i] = &worker{minViol: map[string]*c31Finding{}, outcomes: map[string]int64{}, seen: map[uint32]string{}}
+		workers[i] = &worker{outcomes: map[string]int64{}, seen: map[uint32]string{}}
 	}
 	c.ParallelN(c31Retrieve+1, "multisets by number of S members", func(wi, a int) {
 		w := workers[wi]
@@ -854,33 +985,25 @@ func TestMC_C31(t *testing.T) {
 						}
 						w.cross++
 					}
-					accounted := 0
-					for cl := range joined {
-						accounted += joined[cl] * acct[cl]
-					}
 					sz := sizer.sizes(joined)
 					w.messages += 8
 					over := false
-					for k, s := range sz {
-						kind := c31Kinds[k]
-						if kind == "finalized-bundle" {
-							kind = "bundle" // same builder, same length
+					// message builders: 0 bundle (= finalized bundle, same builder and
+					// length), 1 transaction challenge, 2 full challenge, 3 relay wrapping
+					for k, size := range [5]int{sz[0], sz[2], sz[3], sz[3] + c31RelayHdr, sz[0] + c31RelayHdr} {
+						if size <= c31Max {
+							continue
 						}
-						for _, v := range []struct {
-							key  string
-							size int
-						}{{kind, s}, {"relay", s + c31RelayHdr}} {
-							if v.size <= c31Max {
-								continue
+						over = true
+						if k == 4 { // smallest relay-wrapped message; the largest decides "any"
+							continue
+						}
+						if old := w.minViol[k]; old == nil || c31Less(m, old.Multiset) {
+							accounted := 0
+							for cl := range joined {
+								accounted += joined[cl] * acct[cl]
 							}
-							over = true
-							key := v.key + ">max:sum-envelope-exceeds-while-accounted-size-below-two-thirds"
-							if mode == "unsigned-payload" {
-								key = v.key + ">max:sum-envelope-exceeds-while-sum-payload-below-two-thirds"
-							}
-							if old := w.minViol[key]; old == nil || c31Less(m, old.Multiset) {
-								w.minViol[key] = &c31Finding{Multiset: m, Batch: joined, Queue: c31Describe(q), Size: v.size, Accounted: accounted}
-							}
+							w.minViol[k] = &c31Finding{Multiset: m, Batch: joined, Queue: c31Describe(q), Size: size, Accounted: accounted}
 						}
 					}
 					if sz[3] > w.maxSize {
@@ -902,7 +1025,7 @@ func TestMC_C31(t *testing.T) {
 			}
 		}
 	})
-	total := &worker{minViol: map[string]*c31Finding{}, outcomes: map[string]int64{}, seen: map[uint32]string{}}
+	total := &worker{outcomes: map[string]int64{}, seen: map[uint32]string{}}
 	for _, w := range workers {
 		total.cross += w.cross
 		for k, v := range w.seen {
@@ -912,7 +1035,7 @@ func TestMC_C31(t *testing.T) {
 		total.cases += w.cases
 		total.messages += w.messages
 		for k, v := range w.minViol {
-			if old := total.minViol[k]; old == nil || c31Less(v.Multiset, old.Multiset) {
+			if old := total.minViol[k]; v != nil && (old == nil || c31Less(v.Multiset, old.Multiset)) {
 				total.minViol[k] = v
 			}
 		}
@@ -932,6 +1055,7 @@ func TestMC_C31(t *testing.T) {
 			c.Outcome("batch:" + oc)
 		}
 	}
+	st.done("model enumeration")
 	c.AddStates(total.states)
 	c.AddTrans(total.messages)
 	c.Eval(total.cases)
@@ -947,44 +1071,49 @@ func TestMC_C31(t *testing.T) {
 	kH, kP := kOf(c31H), kOf(c31P)
 	c.Set("threshold_members", map[string]int{"H": kH, "P": kP, "S": kOf(c31S)})
 	c.Require(kH+1 <= nH && kP+1 <= nP, "not enough members built for the threshold traces: kH=%d kP=%d", kH, kP)
-	replayed[c31Describe(probeQ)] = false
-	replay(probeQ, &acct, "probe") // the probe trace compared as an ordinary trace (cached validation makes it cheap? no: revalidated)
+	// quick tier: the heavy class H is replayed in the probe trace (kH+1 members
+	// under the unsigned accounting: kH join, one is cut) and in the worst trace;
+	// the separate kH-1 / kH traces and the smallest violating queues (3 s of
+	// signature verification per H member) are left to the thorough tier
+	replay(probeQ, "probe") // the probe run, now compared as an ordinary trace
 	for _, d := range []int{-1, 0, 1} {
-		if kH+d <= nH {
-			replay([]c31Run{{c31H, kH + d}}, &acct, "threshold-H")
+		if c.Thorough() && kH+d <= nH {
+			replay([]c31Run{{c31H, kH + d}}, "threshold-H")
 		}
 		if kP+d <= nP {
-			replay([]c31Run{{c31P, kP + d}}, &acct, "threshold-P")
+			replay([]c31Run{{c31P, kP + d}}, "threshold-P")
 		}
 	}
 	for n := 0; n <= 4; n++ {
-		replay([]c31Run{{c31S, n}}, &acct, "small")
+		replay([]c31Run{{c31S, n}}, "small")
 	}
 	// after the boundary nothing joins any more, whatever its size
-	replay([]c31Run{{c31P, kP + 1}, {c31S, 2}}, &acct, "after-boundary")
-	replay([]c31Run{{c31P, kP}, {c31S, 1}, {c31P, 1}, {c31S, 1}}, &acct, "boundary-rotation")
-	replay([]c31Run{{c31S, 2}, {c31P, kP}, {c31S, 1}, {c31P, 1}}, &acct, "boundary-rotation")
-	// the largest message of the whole model and the smallest violating multisets
-	replay(total.maxQ, &acct, "worst")
-	var keys []string
-	for k := range total.minViol {
-		keys = append(keys, k)
-	}
-	sort.Strings(keys)
-	for _, k := range keys {
-		v := total.minViol[k]
-		replay([]c31Run{{c31H, v.Multiset[c31H]}, {c31P, v.Multiset[c31P]}, {c31S, v.Multiset[c31S]}}, &acct, "smallest-violating")
+	replay([]c31Run{{c31P, kP + 1}, {c31S, 2}}, "after-boundary")
+	replay([]c31Run{{c31P, kP}, {c31S, 1}, {c31P, 1}, {c31S, 1}}, "boundary-rotation")
+	replay([]c31Run{{c31S, 2}, {c31P, kP}, {c31S, 1}, {c31P, 1}}, "boundary-rotation")
+	// the largest message of the whole model
+	replay(total.maxQ, "worst")
+	builders := [4]string{"bundle", "transaction-challenge", "full-challenge", "relay"}
+	cause := ">max:sum-envelope-exceeds-while-accounted-size-below-two-thirds"
+	if mode == "unsigned-payload" {
+		cause = ">max:sum-envelope-exceeds-while-sum-payload-below-two-thirds"
 	}
 	if c.Thorough() {
+		for _, v := range total.minViol {
+			if v != nil {
+				replay([]c31Run{{c31H, v.Multiset[c31H]}, {c31P, v.Multiset[c31P]}, {c31S, v.Multiset[c31S]}}, "smallest-violating")
+			}
+		}
 		verifmc.Sequences(3, 1, 3, func(seq []int) bool {
 			var q []c31Run
 			for _, cl := range seq {
 				q = append(q, c31Run{cl, 1})
 			}
-			replay(q, &acct, "all-sequences<=3")
+			replay(q, "all-sequences<=3")
 			return true
 		})
 	}
+	st.done("replayed traces")
 	c.Set("replayed_traces", len(replayed))
 	c.Set("replayed_H_validations", replayH)
 	if len(realOver) > 0 {
@@ -992,41 +1121,52 @@ func TestMC_C31(t *testing.T) {
 	}
 
 	// ---- verdicts of the model ----
-	for _, k := range keys {
-		v := total.minViol[k]
+	confirmed := map[[3]int]string{}
+	for k, v := range total.minViol {
+		if v == nil {
+			continue
+		}
 		q := []c31Run{{c31H, v.Multiset[c31H]}, {c31P, v.Multiset[c31P]}, {c31S, v.Multiset[c31S]}}
 		desc := fmt.Sprintf("smallest violating queue %s (batch %s, found in order %s): accounted %d bytes < %d (two thirds of %d) but the message is %d bytes", c31Describe(q), c31Key(v.Batch), v.Queue, v.Accounted, c31Max*2/3, c31Max, v.Size)
-		// confirm on the real code: real batch, real builders, relay panic, Send refusal
-		if members, ok := f.expand(q); ok {
-			res := replay(q, nil, "confirm")
-			if res != nil && len(res.batch) == c31Members(v.Batch) {
+		// confirm on the real code: a batch of exactly this composition formed by
+		// the REAL batcher in one of the replayed traces, the real builders, the
+		// relay panic and the refusal by QuicClient.Send
+		if _, ok := confirmed[v.Batch]; !ok {
+			confirmed[v.Batch] = "; no replayed trace formed exactly this batch on the real batcher (thorough tier replays it)"
+			var names []string
+			for name := range runs {
+				names = append(names, name)
+			}
+			sort.Strings(names)
+			for _, name := range names {
+				res := runs[name]
+				var comp [3]int
+				for _, m := range res.batch {
+					comp[m.Class]++
+				}
+				if comp != v.Batch || !replayed[name] {
+					continue
+				}
 				plain, relay, rp := c31RealSizes(f, res.batch)
-				desc += fmt.Sprintf("; REAL batcher formed a batch of %d, real builders give bundle %d, transaction challenge %d, full challenge %d bytes; buildRelayMessage panics=%v (relay sizes %v)", len(res.batch), plain[0], plain[2], plain[3], rp, relay)
 				txs := make([]*common.VersionedTransaction, len(res.batch))
 				for i, m := range res.batch {
 					txs[i] = m.Ver
 				}
 				err := (&p2p.QuicClient{}).Send(p2p.VerifBuildTransactionsMessage(txs, p2p.PeerMessageTypeTransactionBundle))
-				desc += fmt.Sprintf("; QuicClient.Send: %v", err)
-			} else if res != nil {
-				desc += fmt.Sprintf("; NOT confirmed on the real batcher (real batch %d members)", len(res.batch))
+				confirmed[v.Batch] = fmt.Sprintf("; CONFIRMED: the real popAndProcessCacheQueue formed this batch from queue %s; real builders give bundle %d, transaction challenge %d, full challenge %d bytes; buildRelayMessage panics=%v (relay sizes %v); QuicClient.Send: %v", name, plain[0], plain[2], plain[3], rp, relay, err)
+				c.Set("violation_confirmed_on_real_code", map[string]any{"queue": name, "batch": c31Key(comp), "bundle": plain[0], "transaction_challenge": plain[2], "full_challenge": plain[3], "relay_panics": rp, "send_error": fmt.Sprint(err)})
+				break
 			}
-			_ = members
 		}
-		c.Violation(k, desc, map[string]any{"multiset": map[string]int{"S": v.Multiset[0], "P": v.Multiset[1], "H": v.Multiset[2]}, "queue": c31Describe(q), "class_unsigned": unsigned, "class_envelope": envelope, "accounting": mode, "message_bytes": v.Size})
-	}
-	for _, o := range realOver {
-		// a real batch over the maximum that the model did not predict
-		if len(keys) == 0 {
-			c.Violation("real-batch>max:not-predicted-by-model", "a batch formed by the real popAndProcessCacheQueue builds a message above the transport maximum: "+o, map[string]any{"case": o})
-		}
+		desc += confirmed[v.Batch]
+		c.Violation(builders[k]+cause, desc, map[string]any{"multiset": map[string]int{"S": v.Multiset[0], "P": v.Multiset[1], "H": v.Multiset[2]}, "queue": c31Describe(q), "class_unsigned": unsigned, "class_envelope": envelope, "accounting": mode, "message_bytes": v.Size})
 	}
 	c.Sample(map[string]any{"class": "S", "unsigned": unsigned[0], "envelope": envelope[0]})
 	c.Sample(map[string]any{"class": "P", "unsigned": unsigned[1], "envelope": envelope[1], "extra": c31PExtra})
 	c.Sample(map[string]any{"class": "H", "unsigned": unsigned[2], "envelope": envelope[2], "extra": c31HExtra, "inputs": c31HInputs, "signatures": c31HInputs * c31HKeys})
 	c.Sample(map[string]any{"trace": c31Describe(probeQ), "real": c31Shape(probe.actions), "accounting": mode})
 	c.Sample(map[string]any{"largest": c31Describe(total.maxQ), "bytes": total.maxSize + c31RelayHdr})
-	c.Require(len(replayed) >= 14, "too few traces replayed: %d", len(replayed))
+	c.Require(len(replayed) >= 13, "too few traces replayed: %d", len(replayed))
 }
 
 // c31WriteSide writes the side file merged by the p2p half (which runs last).
